@@ -450,31 +450,23 @@ def _self_field(t):
 
 
 def _lower_bounded(f, bb, val, k):
-    for b2 in sorted(f.reachable()):
-        sw = f.term(b2)
-        if sw["k"] != "switch":
-            continue
-        c = f.operand(sw["discr"], f.end_point(b2))
+    """is val >= k established at block bb by the branch decisions that dominate it (looking through stored booleans
+    and short-circuit joins)?"""
+    import guards
+    for (c, truth) in guards.branch_facts(f, bb):
         if c[0] != "bin" or c[1] not in ("Lt", "Le", "Gt", "Ge"):
             continue
-        true_succ = sw["otherwise"]
-        false_succ = sw["targets"][0][1] if sw["targets"] else None
         x, kk, op = c[2], A.const_int(c[3]), c[1]
         if kk is None:
             x, kk = c[3], A.const_int(c[2])
             op = {"Gt": "Lt", "Ge": "Le", "Lt": "Gt", "Le": "Ge"}[op]
         if kk is None or x != val:
             continue
-        good = None
-        if op == "Lt" and kk >= k:
-            good = false_succ
-        elif op == "Le" and kk >= k - 1:
-            good = false_succ
-        elif op == "Ge" and kk >= k:
-            good = true_succ
-        elif op == "Gt" and kk >= k - 1:
-            good = true_succ
-        if good is not None and f.dominates(good, bb):
+        if not truth:
+            op = {"Lt": "Ge", "Le": "Gt", "Ge": "Lt", "Gt": "Le"}[op]
+        if op == "Ge" and kk >= k:
+            return True
+        if op == "Gt" and kk >= k - 1:
             return True
     return False
 
